@@ -20,5 +20,5 @@ rm -f "$W/mut/$place"
 VERIF_REPO="$W/mut" /verif/tools/baseline_check.py | tail -3
 for c in "$@"; do
   echo "--- check $c against the changed tree"
-  (cd /verif && VERIF_REPO="$W/mut" ./check "$c" 2>&1 | grep -E "^(VIOLATION|OK|KNOWN)" )
+  (cd /verif && VERIF_EVIDENCE_DIR="$W/evidence" VERIF_REPO="$W/mut" ./check "$c" 2>&1 | grep -E "^(VIOLATION|OK|KNOWN)" )
 done
